@@ -5,7 +5,8 @@ package main
 //   action  C15Note{s,t,seq,event,payload?}   = {note what=call} with an optional payload (offer/answer/ice-candidate carry one)
 //   action  C15Timeout{t}                     = the REAL callEstablishmentTimer of the topic is made to expire (only while it is armed:
 //                                               a call is being established), and the step lasts until the timer's case of Topic.run has run
-//   record  rec["c15"] = {configured, calls:{<p2p topic>:{active,seq,parties,orig,origUid,accepted,content}}, pay:[{s,event,payload}]}
+//   record  rec["c15"] = {configured, calls:{<p2p topic>:{active,seq,parties,orig,origUid,accepted,content,armed}}, pay:[{s,event,payload}]}
+//           (armed = the topic's callEstablishmentTimer is pending)
 // The call slot is read from the topic actor's own fields AFTER quiescence (the runner quiesces before every record).
 
 import (
@@ -116,9 +117,19 @@ func init() {
 			if !strings.HasPrefix(tn, "p") {
 				continue
 			}
-			c := map[string]any{"loaded": false, "active": false, "seq": 0, "parties": []string{}, "orig": "", "origUid": "", "accepted": false, "content": ""}
+			c := map[string]any{"loaded": false, "active": false, "seq": 0, "parties": []string{}, "orig": "", "origUid": "", "accepted": false, "content": "", "armed": false}
 			if tp := w.hub.topicGet(w.canon(tn)); tp != nil && !tp.isInactive() {
 				c["loaded"] = true
+				// Is the establishment timer pending? Stop reports it; a pending timer is started again with the configured
+				// duration (the world is quiescent: the topic actor is parked in its select).
+				if tp.callEstablishmentTimer.Stop() {
+					c["armed"] = true
+					d := time.Duration(globals.callEstablishmentTimeout) * time.Second
+					if d <= 0 {
+						d = 30 * time.Second
+					}
+					tp.callEstablishmentTimer.Reset(d)
+				}
 				if cc := tp.currentCall; cc != nil {
 					parties := []string{}
 					orig, origUid := "", ""
